@@ -281,6 +281,16 @@ fn assignments(fv: &[(String, fol::Sort)]) -> Vec<Env> {
     out
 }
 
+/// One formula per printed line. A line is trusted only if it parses and the parsed formula prints back to the very same text:
+/// anthem's concrete syntax is ambiguous in places (`p <- N$i = 1` is read as the comparison chain `p < -N$i = 1`; a C15 matter,
+/// see DESIGN.md), and a misread output must not be mistaken for a wrong one. Untrusted lines are skipped (and counted).
+pub fn read_printed(out: &str) -> Vec<Option<fol::Formula>> {
+    out.lines().filter(|l| !l.trim().is_empty()).map(|l| {
+        let t = l.trim().strip_suffix('.').unwrap_or(l.trim());
+        match fol::Formula::from_str(t) { Ok(f) if f.to_string() == t => Some(f), _ => None }
+    }).collect()
+}
+
 pub struct SimpStats { pub formulas: usize, pub compared: usize, pub skipped_inexact: usize, pub evaluations: usize, pub runs: usize }
 
 pub fn check(deep: bool, stats: &mut SimpStats, fails: &mut Vec<Failure>) {
@@ -312,11 +322,8 @@ pub fn check(deep: bool, stats: &mut SimpStats, fails: &mut Vec<Failure>) {
             if let Ok((_, out2, _)) = run_anthem(&["simplify", "--portfolio", portfolio, "--strategy", strategy], Some(&text)) {
                 if out2 != out { fails.push(Failure { property: "C18", input: what.clone(), detail: "two runs on the same input printed different output".into() }); }
             }
-            // the only access to the simplified formulas is the printed text; a line that does not re-parse is skipped
-            let outputs: Vec<Option<fol::Formula>> = match fol::Theory::from_str(&out) {
-                Ok(t) => t.formulas.into_iter().map(Some).collect(),
-                Err(_) => out.lines().filter(|l| !l.trim().is_empty()).map(|l| fol::Formula::from_str(l.trim().trim_end_matches('.')).ok()).collect(),
-            };
+            // the only access to the simplified formulas is the printed text
+            let outputs = read_printed(&out);
             if outputs.len() != inputs.len() { fails.push(Failure { property: "C07", input: what.clone(), detail: format!("{} formulas in, {} formulas out", inputs.len(), outputs.len()) }); continue; }
             if strategy == "fixpoint" {
                 // idempotence (C18): simplifying the result again returns it unchanged
@@ -386,10 +393,7 @@ pub fn check_gamma(deep: bool, stats: &mut SimpStats, fails: &mut Vec<Failure>) 
     let (rc, out, err) = match run_anthem(&["translate", "--with", "gamma"], Some(&text)) { Ok(x) => x, Err(e) => { fails.push(Failure { property: "harness", input: what, detail: e }); return; } };
     stats.runs += 1;
     if rc != 0 { fails.push(Failure { property: "C05", input: what, detail: format!("exit status {rc}: {}", err.chars().take(400).collect::<String>()) }); return; }
-    let outputs: Vec<Option<fol::Formula>> = match fol::Theory::from_str(&out) {
-        Ok(t) => t.formulas.into_iter().map(Some).collect(),
-        Err(_) => out.lines().filter(|l| !l.trim().is_empty()).map(|l| fol::Formula::from_str(l.trim().trim_end_matches('.')).ok()).collect(),
-    };
+    let outputs = read_printed(&out);
     if outputs.len() != inputs.len() { fails.push(Failure { property: "C05", input: what, detail: format!("{} formulas in, {} formulas out", inputs.len(), outputs.len()) }); return; }
     let dom = Domain::new(-3, 4, &["a", "b"]);
     let n_interp = if deep { 60 } else { 16 };
